@@ -544,6 +544,11 @@ func coordPinned() []coordCase {
 	return []coordCase{
 		// three requests share one fill
 		{MaxAge: 60, Acts: []CoAct{act("arrive", 0, "fast"), act("arrive", 1, "fast"), act("arrive", 2, "fast"), act("answer", 0, "new")}},
+		// two requests wait for a fill that is stale the moment it is stored (the clock moved while it was fetched); the first
+		// client reads slowly, so its handler - and its second release of the key - outlives the fill: the woken waiter that
+		// revalidates must keep the key until its own fetch is answered
+		{MaxAge: 60, Big: true, Acts: []CoAct{act("arrive", 0, "slow"), act("arrive", 1, "fast"), act("arrive", 2, "fast"), {Kind: "adv", Dt: 100},
+			act("answer", 0, "new"), act("resume", 0, ""), act("answer", 1, "304"), act("answer", 2, "304")}},
 		// the request that fetches carries a validator that matches what it fetches; the one that waits carries none
 		{MaxAge: 60, Acts: []CoAct{act("arrive", 0, "cond"), act("arrive", 1, "fast"), act("arrive", 2, "fast"), act("answer", 0, "new")}},
 		// requests that arrive while the first one's body is half way in (cache file created, not yet published)
